@@ -134,31 +134,44 @@ class Gen:
                 self.lines.append("println!(\"obs %s = f64 {}\", (%s).to_bits());" % (key, call))
 
 
-def render(prog):
-    g = Gen()
-    v = g.build(prog)
-    g.observe(v, prog.get("observe", []))
+def render_many(progs):
+    decl_types = set()
+    blocks = []
+    for k, prog in enumerate(progs):
+        g = Gen()
+        v = g.build(prog)
+        g.observe(v, prog.get("observe", []))
+        decl_types |= g.types
+        body = "\n            ".join(g.lines)
+        blocks.append("""    println!("== %d");
+    {
+        let r = std::panic::catch_unwind(|| {
+            %s
+        });
+        if let Err(e) = r {
+            let msg = if let Some(s) = e.downcast_ref::<String>() { s.clone() } else if let Some(s) = e.downcast_ref::<&str>() { s.to_string() } else { "?".to_string() };
+            println!("PANIC {}", msg.replace('\\n', " "));
+        }
+    }""" % (k, body))
     decl = []
-    for t in sorted(g.types):
+    for t in sorted(decl_types):
         if t in MOMENT_TYPES and MOMENT_TYPES[t]:
             decl.append("mod mom_%s { use average::define_moments; define_moments!(%s, %d); }\nuse mom_%s::%s;" % (
                 t.lower(), t, MOMENT_TYPES[t], t.lower(), t))
         if t in HIST_TYPES and HIST_TYPES[t]:
             decl.append("average::define_histogram!(hist_%s, %d);" % (t.lower(), HIST_TYPES[t]))
-    body = "\n        ".join(g.lines)
     return """#![allow(unused_imports, unused_mut, unused_variables)]
 use average::*;
 %s
 fn main() {
-    let r = std::panic::catch_unwind(|| {
-        %s
-    });
-    if let Err(e) = r {
-        let msg = if let Some(s) = e.downcast_ref::<String>() { s.clone() } else if let Some(s) = e.downcast_ref::<&str>() { s.to_string() } else { "?".to_string() };
-        println!("PANIC {}", msg.replace('\\n', " "));
-    }
+    std::panic::set_hook(Box::new(|_| {}));
+%s
 }
-""" % ("\n".join(decl), body)
+""" % ("\n".join(decl), "\n".join(blocks))
+
+
+def render(prog):
+    return render_many([prog])
 
 
 def ensure_crate():
@@ -188,21 +201,9 @@ num-traits = { version = "0.2", default-features = false, features = ["libm"] }
         shutil.copy(os.path.join(REPO, "Cargo.lock"), lock)
 
 
-def run_program(prog, timeout=300):
-    """Returns dict: {"obs": {key: value}, "panic": str|None, "raw": text, "error": str|None}."""
-    ensure_crate()
-    src = render(prog)
-    open(os.path.join(CACHE, "src", "main.rs"), "w").write(src)
-    rc, out, secs = run(["cargo", "run", "--offline", "--quiet", "--release"], timeout, cwd=CACHE,
-                        env={"RUSTFLAGS": "-Awarnings"})
-    res = {"obs": {}, "panic": None, "raw": out[-3000:], "error": None, "lists": {}}
-    if rc is None:
-        res["error"] = "timeout"
-        return res
-    if rc != 0 and "obs " not in out and "PANIC" not in out:
-        res["error"] = "build/run failed rc=%s" % rc
-        return res
-    for line in out.split("\n"):
+def _parse_block(text):
+    res = {"obs": {}, "panic": None, "error": None, "lists": {}}
+    for line in text.split("\n"):
         m = re.match(r"obs (.+?) = (\w+) (.*)$", line)
         if m:
             key, kind, val = m.groups()
@@ -226,6 +227,33 @@ def run_program(prog, timeout=300):
         elif line.startswith("ctor_err="):
             res["obs"]["ctor_err"] = line.split("=")[1]
     return res
+
+
+def run_programs(progs, timeout=600):
+    """Compile all programs into one binary against /repo's current tree and run it."""
+    ensure_crate()
+    open(os.path.join(CACHE, "src", "main.rs"), "w").write(render_many(progs))
+    rc, out, secs = run(["cargo", "run", "--offline", "--quiet", "--release"], timeout, cwd=CACHE,
+                        env={"RUSTFLAGS": "-Awarnings"})
+    if rc is None:
+        return [{"obs": {}, "panic": None, "error": "timeout", "lists": {}, "raw": ""} for _ in progs]
+    parts = re.split(r"^== (\d+)$", out, flags=re.M)
+    got = {}
+    for i in range(1, len(parts) - 1, 2):
+        got[int(parts[i])] = parts[i + 1]
+    results = []
+    for k in range(len(progs)):
+        if k in got:
+            r = _parse_block(got[k])
+        else:
+            r = {"obs": {}, "panic": None, "error": "build/run failed rc=%s" % rc, "lists": {}}
+        r["raw"] = out[-1500:] if r.get("error") else ""
+        results.append(r)
+    return results
+
+
+def run_program(prog, timeout=300):
+    return run_programs([prog], timeout)[0]
 
 
 def main(argv):
